@@ -241,6 +241,7 @@ class Report:
         self.violations: List[Dict[str, Any]] = []
         self.known_hits: Dict[str, Dict[str, Any]] = {}
         self.harness_errors: List[str] = []
+        self.soft_errors: List[str] = []
         self.kf = KnownFindings()
 
     def log(self, msg: str) -> None:
@@ -261,8 +262,12 @@ class Report:
         )
         return True
 
-    def harness_error(self, msg: str) -> None:
-        self.harness_errors.append(msg)
+    def harness_error(self, msg: str, soft: bool = False) -> None:
+        """soft: a determinism / fresh-process-replay mismatch.  On its own it is a harness error; when
+        the same invocation also found property violations it is reported as a note instead, because a
+        tree under test whose behaviour depends on memory addresses (e.g. a registry keyed by id() of
+        dead objects) is itself the source of the nondeterminism and must not hide behind exit 2."""
+        (self.soft_errors if soft else self.harness_errors).append(msg)
 
     def write_replay(self, v: Dict[str, Any]) -> pathlib.Path:
         d = VERIF / "replays"
@@ -289,7 +294,10 @@ class Report:
             "violations": len(self.violations),
         }
         coverage.setdefault("known_findings_printed", sorted(self.known_hits))
+        if self.soft_errors and not self.violations:
+            self.harness_errors.extend(self.soft_errors)
         coverage.setdefault("harness_errors", self.harness_errors[:5])
+        coverage.setdefault("nondeterminism_notes", self.soft_errors[:5] if self.violations else [])
         evdir = VERIF / "evidence"
         evdir.mkdir(exist_ok=True)
         (evdir / f"{self.prop}.json").write_text(json.dumps(ev, indent=1, default=str) + "\n")
@@ -300,6 +308,8 @@ class Report:
                 print(f"HARNESS-ERROR: property={self.prop} {h}", flush=True)
             return EXIT_HARNESS
         if self.violations:
+            for n in self.soft_errors[:5]:
+                print(f"  note: nondeterminism observed together with the violations below (the tree under test may depend on memory addresses): {n[:200]}", flush=True)
             for v in self.violations:
                 p = v.get("replay_path") or self.write_replay(v)
                 print(f"  violation: {v['signature']} :: {v['message'][:300]} (x{v['count']})", flush=True)
